@@ -194,3 +194,58 @@ Lemma c09_local_send_data fs n f tok g :
   get_face fs f = Some g -> f_local g = true ->
   send_data fs n f tok = [{| o_face := f; o_kind := KData; o_name := n; o_hop := None; o_tok := tok |}].
 Proof. intros Hg L; unfold send_data; rewrite Hg, L; reflexivity. Qed.
+
+(* the face table is well formed: a face id denotes one face (dispatch.FaceDispatch is a map keyed by the id; ids are handed
+   out by the face table, whose uniqueness under concurrent registration is property C16's obligation) *)
+Lemma del_face_nodup fs id : NoDup (map f_id fs) -> NoDup (map f_id (del_face fs id)).
+Proof.
+  unfold del_face. induction fs as [|f r IH]; cbn; intros ND; [constructor|].
+  inversion ND as [|? ? Hn ND']; subst. destruct (negb (f_id f =? id)); cbn; [constructor|]; auto.
+  intros Hin. apply Hn. apply in_map_iff in Hin. destruct Hin as (x & E & Hx). apply filter_In in Hx.
+  apply in_map_iff. exists x. split; [exact E|apply Hx].
+Qed.
+
+Lemma add_face_nodup fs f : NoDup (map f_id fs) -> NoDup (map f_id (add_face fs f)).
+Proof.
+  intros ND. unfold add_face. cbn. constructor; [|apply del_face_nodup, ND].
+  intros Hin. apply in_map_iff in Hin. destruct Hin as (x & E & Hx). unfold del_face in Hx. apply filter_In in Hx.
+  destruct Hx as [_ Hx]. rewrite E, N.eqb_refl in Hx. discriminate.
+Qed.
+
+Lemma step_faces s e ch :
+  faces (r_st (step s e ch)) = match e with EFaceAdd f => add_face (faces s) f | EFaceDel id => del_face (faces s) id | _ => faces s end.
+Proof.
+  destruct e; cbn; try reflexivity.
+  - unfold step_interest.
+    destruct (get_face (faces s) (i_face i)) as [inf|]; [|reflexivity].
+    destruct (match i_hop i with Some 0 => true | _ => false end); [reflexivity|].
+    destruct (negb (f_local inf) && code_localhost (i_name i)); [reflexivity|].
+    destruct (i_nonce i) as [nonce|]; [|reflexivity].
+    destruct (dnl_has (dnl s) (i_name i) nonce); [reflexivity|].
+    destruct (insert_interest _ _ _ _ _ _) as [[[pre e0] post] tok_ok].
+    destruct (is_dup (i_face i) nonce e0); [reflexivity|].
+    destruct (insert_inrec now (i_face i) nonce (i_life i) (i_tok i) e0) as [[e1 pending] prev].
+    destruct (cs_stage s now i inf pending ch) as [[hit lru'] cs_ok].
+    destruct hit; [reflexivity|].
+    destruct (i_nhf i); [destruct (send_all _ _ _ _ _ _ _ _ _ _); reflexivity|].
+    destruct (strategy_interest _ _ _ _ _ _ _ _ _ _ _ _) as [[e3 os] tie_ok]. reflexivity.
+  - unfold step_data.
+    assert (T : forall t, faces (r_st (step_data_thread s now d t)) = faces s).
+    { intros t. unfold step_data_thread. destruct (get_face (faces s) (d_face d)); [|reflexivity].
+      destruct (negb (f_local f) && code_localhost (d_name d)); [reflexivity|].
+      assert (C : faces (if cs_admit s then cs_insert s now (d_name d) (d_fresh d) else s) = faces s)
+        by (destruct (cs_admit s); [apply cs_insert_faces|reflexivity]).
+      cbv zeta. destruct (data_matches _ _ _); cbn; exact C. }
+    destruct (data_token (d_tok d)) as [[th tk]|]; [|apply T].
+    destruct (th =? tid s); [apply T|reflexivity].
+  - unfold step_tick. destruct (pop_chosen _ _ _ _ _) as [pd ok]. reflexivity.
+  - destruct n; reflexivity.
+Qed.
+
+Lemma face_table_wf s0 (h : history) : NoDup (map f_id (faces s0)) ->
+  forall pre e r, In (pre, e, r) (trace s0 h) -> NoDup (map f_id (faces pre)).
+Proof.
+  revert s0. induction h as [|[e c] t IH]; intros s0 W pre e' r; cbn; [intros []|].
+  intros [E|Hin]; [inversion E; subst; exact W|].
+  eapply IH; [|exact Hin]. rewrite step_faces. destruct e; try exact W; [apply add_face_nodup, W|apply del_face_nodup, W].
+Qed.
